@@ -29,7 +29,8 @@ func genDigit(p int) int {
 	if p == 0 {
 		return 3
 	}
-	return (p*7 + p/10 + 1) % 10
+	// not periodic, so that a pattern taken far out does not already occur in the first block
+	return (p*p/7 + p*3 + p/13 + p/101*7) % 10
 }
 
 type countingSource struct {
@@ -91,6 +92,7 @@ type scriptEnv struct {
 	handles []handle
 	iters   []pullIter
 	seqs    []func(take int) string
+	finds   []func() int // live Find / FindR closures (mkf / mkfr / nxf)
 	src     *countingSource
 }
 
@@ -305,6 +307,15 @@ func (e *scriptEnv) execStmt(st string) string {
 			return "na"
 		}
 		return e.seqs[hi](atoi(a[2]))
+	case "nxf":
+		if hi >= len(e.finds) {
+			return "na"
+		}
+		var out []int
+		for i := 0; i < atoi(a[2]); i++ {
+			out = append(out, e.finds[hi]())
+		}
+		return intsString(out)
 	}
 	if hi >= len(e.handles) {
 		return "na"
